@@ -38,6 +38,11 @@ def generate(rng, tier):
     for i in range(ng):
         nb = rng.choice([2, 2, 3, 8, 31, 32])
         groups.append((rng.randint(2, 255), rand_prime(rng, nb, top_bit=(nb == 32 and rng.random() < 0.7))))
+    # one-byte primes, in particular with the generator byte ABOVE the prime (g is hashed as the announced byte, not as g mod N'),
+    # equal to it plus one, and just below it
+    for p1 in (3, 5, 7, 11, 13, 127, 131, 193, 251):
+        for g in sorted(set([p1 + 1, min(255, p1 + 2), 255, 200, rng.randint(p1 + 1, 255), max(2, p1 - 1), 2])):
+            if g % p1: groups.append((g, p1))
     reps = 12 if tier == "quick" else 40
     for g, n_ in groups:
         for _ in range(reps):
